@@ -97,6 +97,7 @@ func (f *farm) setup(gosum string) {
 // result of one package
 type pkgResult struct {
 	GenOK    bool
+	Wrote    bool // the CLI failed but left an output file
 	GenLog   string
 	BuildOK  bool
 	BuildLog string
@@ -216,7 +217,9 @@ func (f *farm) process(files []FileDef, mode string, plan map[string]*enumPlan) 
 				res[i].GenOK = false
 				res[i].GenLog += "\n(no output file written)"
 			}
-		} else {
+		} else if _, serr := os.Stat(filepath.Join(dir, "defs.genum.go")); serr == nil {
+			// a refused definition must not leave an output file behind
+			res[i].Wrote = true
 			os.Remove(filepath.Join(dir, "defs.genum.go"))
 		}
 	})
